@@ -87,15 +87,19 @@ def proxy_case():
 class _RecCv:
     def __init__(self):
         self.notified = 0
+        self.all_notified = 0
+        self.untimed_waits = 0
 
     def notify(self):
         self.notified += 1
 
     def notify_all(self):
         self.notified += 1
+        self.all_notified += 1
 
     def wait(self, timeout=None):
-        pass
+        if timeout is None:
+            self.untimed_waits += 1
 
 
 WAYS = ["socket-eof", "peer-disconnect", "protocol-error", "local-close", "socket-error(errno,strerror)", "socket-error(no-args)",
@@ -155,6 +159,11 @@ def wakeup_case(server):
         ch = probe["ch"]
         ctx.prove(not t.active and not t.is_active(), "transport-inactive-after-the-connection-ended")
         ctx.prove(probe["accept_cv"].notified >= 1, "accept()-waiters-are-notified")
+        ctx.prove(probe["accept_cv"].all_notified >= 1, "every-accept()-waiter-is-notified(notify_all:several-threads-may-wait)")
+        # a call made after the end: nothing will ever notify the condition again, so an untimed wait would never return
+        late = _RecCv()
+        t.server_accept_cv = late
+        ctx.prove(t.accept(None) is None and late.untimed_waits == 0, "accept(None)-made-after-the-end-returns-at-once")
         ctx.prove(ch.closed and ch.in_buffer._closed and ch.in_stderr_buffer._closed, "channel-readers-are-released(buffers-closed)")
         ctx.prove(ch.event.is_set() and ch.status_event.is_set(), "channel-request-and-exit-status-waiters-are-released")
         ctx.prove(probe["open_event"].is_set() or not t.active, "open_channel-waiters-see-the-end(timed-loop-re-checks-active)")
